@@ -7,6 +7,13 @@ P = {'id': 'C06',
               'gold_refines_map',
               'easy_refines_map',
               'idx_refines_map',
+              'get_fast_is_get',
+              'smallmap_u8_refines_map',
+              'get_fast_unmasked_refuted',
+              'hashstr_refines_map',
+              'hashstr_counters',
+              'easy_ext_refines_map',
+              'idx_batch_refines_map',
               'remove_loop_is_get_loop',
               'sentinel_unmapped_refuted',
               'tombstone_first_slot_refuted',
@@ -22,15 +29,25 @@ P = {'id': 'C06',
              'the hash function (DefaultHasher) and the f32 max-load computation are function parameters, instantiated per case with tables computed by the harness from the real code; '
              'the link-type capacity check (index > L::MAX, u32 vs u64 links) is not modelled',
              'modelled (M+S): src/containers/specialized/easy_hash_map.rs - put() with the auto-grow rebuild (ZiporaHashMap::with_capacity(max(2*capacity,64)), every iterated entry re-inserted, errors ignored), '
-             'get/remove/contains_key/len/clear/get_or_insert delegating to the inner map; the f64 load-factor test is a function parameter; shrink_to_fit, retain and extend are not modelled',
+             'get/remove/contains_key/len/clear delegating to the inner map; get_or_insert / get_or_insert_with (contains_key, put if absent, get_mut().expect()) and extend / Extend / FromIterator as the loop of their put() calls '
+             '(ModelEasyX.v, theorem easy_ext_refines_map); the f64 load-factor test is a function parameter; shrink_to_fit and retain are not modelled',
              'modelled (M+S): src/containers/specialized/gold_hash_idx.rs - with_capacity, insert (resize check, unbounded probe, allocate_value with free-list pop or push, store_value), resize/resize_to '
              '(re-insertion of every bucket, old value slots not released), get/get_mut, remove (free_value, rehash_after_removal: take out and re-place the following cluster), len; the hash function '
-             '(AHasher) is a parameter; insert_batch, get_batch, shrink_to_fit and the memory statistics are not modelled; answers only are compared (the type exposes no layout)',
-             'spec-only cells (direct oracle against std BTreeMap, no mechanism model): HashStrMap (a wrapper around std HashMap), ZiporaHashMap<String> (Borrow lookups), SmallMap<u8>::get_fast (SIMD key search)',
+             '(AHasher) is a parameter; insert_batch (pre-sizing through resize_to to any power of two + the insert loop: ModelIdxX.v, theorem idx_batch_refines_map) is modelled; get_batch, shrink_to_fit and the memory statistics are not modelled; answers only are compared (the type exposes no layout)',
+             'modelled (M+S): src/containers/specialized/small_map.rs SmallMap<u8>::get_fast - impl OptimizedSearch for u8 at the level of the 16 byte lanes and the 32 mask bits (zero-initialised key buffer, '
+             '_mm_loadl_epi64, _mm_cmpeq_epi8, _mm_movemask_epi8, the lane mask (1 << min(len,8)) - 1 of fix 3fcc283, trailing_zeros), find_key_index_simd (unrolled search up to 4 keys), get_fast; '
+             'the SSE2 intrinsics are modelled by their documented lane semantics; the dead u32/u64/i32 search impls are not modelled',
+             'modelled (M+S): src/containers/specialized/hash_str_map.rs - the wrapper (entry point -> map call, total_inserts / unique_keys bookkeeping, clear, statistics()); the inner std::collections::HashMap is TRUSTED to be a map '
+             '(its operations are the spec operations); String keys are numbered injectively by the harness; insert_fast_str with non-UTF-8 bytes is not exercised',
+             'tied to the existing models on canonical key/value numbers (M+S): ZiporaHashMap<String> (lookups through &str, hash_key_borrowed) and ZiporaHashMap<T> for seven rarely used type pairs - standard-storage model under a hash '
+             'function given as a per-case table of what the real BuildHasher returns for the real key; GoldHashMap<T> with a DefaultHasher table; GoldHashIdx<T>, SmallMap<T>, EasyHashMap<T> by their answers. '
+             'Rust generics themselves (monomorphisation, Borrow, Drop of keys/values) are not modelled',
+             'spec-only cells (direct oracle against std BTreeMap, no model comparison): ZiporaHashMap with the default hasher parameter (ahash / std RandomState, seeds unknown to the harness); '
+             'the eighteen hash_functions.rs hashers are compared with the model through per-case hash tables (kind 6)',
              'oracle only (no model, judged by the BTreeMap shadow inside the same histories): housekeeping calls (reserve, shrink_to_fit, revoke_deleted, set_hash_caching, set_auto_grow, '
              'set_max_load_factor, statistics, Debug), Clone / PartialEq, bulk insertion (insert_batch, extend, Extend, FromIterator), alternative lookups (get_batch, get_or_default, get_by_fast_str, '
              'is_interned), get_or_insert(_with) on absent keys, retain, alternative iteration (iter_fast, keys/values, ExactSizeIterator), every further constructor / preset / builder option, '
-             'seven rarely used key/value type pairs, eighteen hash functions of hash_functions.rs as the caller-supplied hasher, threshold sweeps and fills past 2^16 entries; the model comparison '
+             'eighteen hash functions of hash_functions.rs as the caller-supplied hasher, threshold sweeps and fills past 2^16 entries; the model comparison '
              'skips the content-preserving ones and stops before the first content-changing one',
              'std_refines_map is stated for power-of-two initial capacities (default 16, pool preset 64, with_capacity(2^k)); other capacities (with_capacity(100), custom initial_capacity 3/10/24, '
              'capacity left by clear()) are covered by the model/implementation comparison and the oracle only',
@@ -49,12 +66,15 @@ P = {'id': 'C06',
                'no probe or re-placement loop runs out of fuel). In each, the exact Gallina model of the code returns what a mathematical map returns: insert/remove return the previous value '
                'exactly when present, get is the last value inserted unless removed, len is the number of live keys, iteration is a permutation of the live entries. Refutation theorems show that the '
                'pre-fix code (marker hashes, first-tombstone reuse, tombstone-yielding iterator) and the three stub storage strategies do not have the property. The models are tied to the code on every '
-               'run by replaying ~1200 histories in Coq (vm_compute) under ten caller-supplied hashers, nine capacities and nine GoldHashMap configurations. HashStrMap, String-keyed ZiporaHashMap and SmallMap<u8>::get_fast '
-               'are decided by the differential oracle only (S-only).',
+               'run by replaying ~1500 histories in Coq (vm_compute) under ten caller-supplied hashers, nine capacities and nine GoldHashMap configurations. Extension: get_fast_is_get / smallmap_u8_refines_map '
+               '(SmallMap<u8>::get_fast, the SSE2 key search modelled lane by lane and mask bit by mask bit, returns what get returns in every reachable state; get_fast_unmasked_refuted for the code before 3fcc283), '
+               'hashstr_refines_map / hashstr_counters (HashStrMap: the wrapper over a trusted std HashMap answers like a map, len <= unique_keys <= total_inserts); String-keyed and typed cells run the same models on canonical '
+               'key numbers with the real hasher tabulated per case; easy_ext_refines_map adds EasyHashMap::get_or_insert(_with) and extend, idx_batch_refines_map GoldHashIdx::insert_batch (growth to any power of two) to the modelled operations. Only ZiporaHashMap under randomly seeded hashers (the default hasher parameter) is decided by the differential oracle alone (S-only).',
  'level_note': 'Trusted: Coq kernel + vm_compute; the hand-written models and their mirror of the test hashers; harness generators and the BTreeMap oracle. The theorems are about the models; keys/values are '
                'natural numbers, Rust generics (K: Hash+Eq+Clone) are not modelled.',
  'technique': 'Coq refinement proofs (invariant + simulation over all histories, hash function universally quantified): probe-path invariant + pigeonhole for the open-addressing table, chain/relink/compaction '
               'invariant for the chained table; refutation witnesses by vm_compute for the pre-fix code and the stubs; model/implementation differential check on operation histories evaluated in Coq; '
               'differential oracle (std BTreeMap) over every map type, preset and adversarial hasher, incl. an enumerated universe of all short histories over three colliding keys',
- 'explanation': 'Unbounded refinement theorems for ZiporaHashMap standard storage, SmallMap, GoldHashMap, EasyHashMap and GoldHashIdx (all hash functions, all histories); differential oracle for the remaining map types; '
+ 'explanation': 'Unbounded refinement theorems for ZiporaHashMap standard storage, SmallMap (incl. the vectorised get_fast of SmallMap<u8>), GoldHashMap, EasyHashMap, GoldHashIdx and the HashStrMap wrapper (all hash functions, all histories); '
+                'String-keyed and typed cells tied to the same models; differential oracle for all of them and alone for randomly seeded hashers; '
                 'stub storage strategies are a recorded finding.'}
